@@ -4,6 +4,7 @@ driver links as a native executable.  Rationals travel as `[num, den]` pairs of 
 strings (exact images of the implementation's doubles, `float.as_integer_ratio`).
 -/
 import Lean.Data.Json
+import PgFdr.Model.Basic
 
 namespace PgFdr
 open Lean
@@ -71,5 +72,22 @@ def ofStrs (l : List String) : Json := .arr (l.map Json.str).toArray
 def ofList {α} (f : α → Json) (l : List α) : Json := .arr (l.map f).toArray
 def ofErr (e : String) : Json := Json.mkObj [("err", .str e)]
 def obj (kvs : List (String × Json)) : Json := Json.mkObj kvs
+
+/-- `[peptide, [num,den], [proteins…]]` -/
+def jpepinfo (j : Json) : R PepInfo := do
+  match j with
+  | .arr #[p, s, ps] => pure { peptide := ← jstr p, pep := ← jrat s, proteins := ← jstrs ps }
+  | _ => .error s!"expected [peptide, pep, proteins], got {j.compress}"
+
+/-- `[[num,den], peptide, [proteins…]]` (the implementation's tuple order) -/
+def jevidence (j : Json) : R Evidence := do
+  match j with
+  | .arr #[s, p, ps] => pure { pep := ← jrat s, peptide := ← jstr p, proteins := ← jstrs ps }
+  | _ => .error s!"expected [pep, peptide, proteins], got {j.compress}"
+
+def ofPepInfo (x : PepInfo) : Json := .arr #[.str x.peptide, ofRat x.pep, ofStrs x.proteins]
+def ofEvidence (x : Evidence) : Json := .arr #[ofRat x.pep, .str x.peptide, ofStrs x.proteins]
+def ofGroups (gs : List (List String)) : Json := ofList ofStrs gs
+def jgroups (j : Json) : R (List (List String)) := jlist jstrs j
 
 end PgFdr
